@@ -18,4 +18,8 @@ CASES = [
      "edits": [(PA, "MeasuredParameter(prog.reg_refs[int(k.name[1:])])", "MeasuredParameter(prog.register[int(k.name[1:])])")]},
     {"id": "twin-select-local", "expect": "silent",
      "edits": [(BB, '            if cmd.op.select is not None:\n                op["kwargs"]["select"] = cmd.op.select\n', '            sel = cmd.op.select\n            if sel is not None:\n                op["kwargs"]["select"] = sel\n')]},
+    {"id": "blackbird-args-aliased", "expect": "fire", "key": "C14.alias",
+     "edits": [("io/blackbird_io.py", 'op["args"] = list(cmd.op.p)', 'op["args"] = cmd.op.p')]},
+    {"id": "twin-blackbird-args-copied-otherwise", "expect": "silent",
+     "edits": [("io/blackbird_io.py", 'op["args"] = list(cmd.op.p)', 'op["args"] = cmd.op.p[:]')]},
 ]
